@@ -253,12 +253,16 @@ def make_fake_logger_class(fake):
             super().__init__()
             self._save_dir = save_dir
             self._name = name
-            self._run = fake.new_run(save_dir, prv=id)
-            self._run.config_updates.append({"_init": {"entity": entity, "project": project, "name": name, "group": group}})
-            self._run._persist()
+            self._id = id
+            self._init = {"entity": entity, "project": project, "name": name, "group": group}
+            self._run = None  # like Lightning's WandbLogger: the run is created on first access to .experiment, not here
 
         @property
         def experiment(self):
+            if self._run is None:
+                self._run = fake.new_run(self._save_dir, prv=self._id)
+                self._run.config_updates.append({"_init": self._init})
+                self._run._persist()
             return self._run
 
         @property
@@ -267,7 +271,8 @@ def make_fake_logger_class(fake):
 
         @property
         def version(self):
-            return self._run.id
+            # Lightning: "don't create an experiment if we don't have one" - before the run exists this is the constructor's id
+            return self._run.id if self._run is not None else self._id
 
         @property
         def save_dir(self):
@@ -275,12 +280,12 @@ def make_fake_logger_class(fake):
 
         @rank_zero_only
         def log_hyperparams(self, params, *a, **k):
-            self._run.config_updates.append({"hparams": _plain(params)})
-            self._run._persist()
+            self.experiment.config_updates.append({"hparams": _plain(params)})
+            self.experiment._persist()
 
         @rank_zero_only
         def log_metrics(self, metrics, step=None):
-            self._run.log(dict(metrics, step=step))
+            self.experiment.log(dict(metrics, step=step))
 
     return FakeWandbLogger
 
@@ -378,6 +383,8 @@ def build_config(p, save_dir, chunks_dir, slp, key):
     if origin == "yaml":
         # the user's YAML lives outside the output roots
         path = os.path.join(os.path.dirname(save_dir), "user_config.yaml")
+        if p.get("yaml_filename"):
+            d["filename"] = path  # schema field "Path to this config file if it was loaded from disk": the file that still holds the key
         OmegaConf.save(OmegaConf.create(d), path)
         return OmegaConf.load(path)
     # structured: the programmatic builders
@@ -656,6 +663,9 @@ def run_trainer_child(plan, root, key):
     if getattr(fake, "login_fault_fired", False):
         res["fault_fired_login"] = True
     art["wandb_finished"] = fake.finished
+    art["wandb_run_id"] = fake.run.id if fake.run is not None else None  # the run the training actually logged to
+    if os.path.exists(tc):
+        art["final_run_id"] = OmegaConf.select(OmegaConf.load(tc), "trainer_config.wandb.run_id", default="<absent>")
     res["artifacts"] = art
     return res
 
